@@ -74,6 +74,10 @@ struct Triple {
   uint64_t val;
 };
 constexpr int MAXSEEN = 48;
+constexpr unsigned CS_MAX = 256;
+static __thread uintptr_t tl_cs[CS_MAX];
+static __thread uintptr_t tl_cs_hash;
+static __thread unsigned tl_cs_depth;
 
 struct VThread {
   int id;
@@ -500,6 +504,7 @@ static int next_choice(uint8_t kind, int arity, uint8_t cm) {
   p.cm = cm;
   p.chosen = uint8_t(alt);
   __atomic_store_n(&r->npoints, idx + 1, __ATOMIC_RELEASE);
+  TRACE("    {choice #%u kind=%d arity=%d cm=%d -> %d}\n", idx, kind, arity, cm, alt);
   g.trace_hash = mix64(g.trace_hash, (uint64_t(kind) << 16) | (uint64_t(arity) << 8) | alt);
   return alt;
 }
@@ -669,6 +674,7 @@ static void spin_yield(VThread* me) {
 // record an observation (load / failed CAS); returns true if the same observation was made before
 // without any write in between (by anybody)
 static bool observe(VThread* me, void* pc, uintptr_t addr, uint64_t val) {
+  pc = (void*)((uintptr_t)pc ^ tl_cs_hash);
   for (int k = 0; k < me->nseen; k++)
     if (me->seen[k].pc == pc && me->seen[k].addr == addr && me->seen[k].val == val) return true;
   if (me->nseen < MAXSEEN) me->seen[me->nseen++] = Triple{pc, addr, val};
@@ -876,6 +882,7 @@ static Msg* pick_message(VThread* me, Loc* l, bool for_cas, uint64_t expected, b
   uint32_t fl = floor_of(l, me);
   uint32_t scf = sc_floor(l, sc_load ? g.sc_seq : me->sc_seen);
   if (scf > fl) fl = scf;
+  TRACE("    {pick T%d nmsg=%d floor=%u scf=%u vis=[%u %u %u %u]}\n", me->id, l->nmsg, fl, scf, me->vis.c[0], me->vis.c[1], me->vis.c[2], me->vis.c[3]);
   Msg* cand[MAXMSG];
   int n = 0;
   cand[n++] = newest;
@@ -1216,8 +1223,18 @@ void __tsan_vptr_update(void** a, void* nv) {
   if (*a != nv) plain_access((uintptr_t)a, 8, true, RA);
 }
 void __tsan_vptr_read(void** a) { plain_access((uintptr_t)a, 8, false, RA); }
-void __tsan_func_entry(void*) {}
-void __tsan_func_exit() {}
+// shadow call stack (hash only): lets the spin detector tell two calls of an outlined accessor from
+// different call sites apart from a loop that repeats the same call
+void __tsan_func_entry(void* ra) {
+  if (tl_cs_depth < CS_MAX) tl_cs[tl_cs_depth] = tl_cs_hash;
+  tl_cs_depth++;
+  tl_cs_hash = tl_cs_hash * 0x9E3779B97F4A7C15ull + (uintptr_t)ra;
+}
+void __tsan_func_exit() {
+  if (tl_cs_depth == 0) return;
+  tl_cs_depth--;
+  if (tl_cs_depth < CS_MAX) tl_cs_hash = tl_cs[tl_cs_depth];
+}
 void __tsan_ignore_thread_begin() {}
 void __tsan_ignore_thread_end() {}
 void __tsan_read_range(void* a, unsigned long n) {
